@@ -102,7 +102,6 @@ zlaqgs(SuperMatrix *A, double *r, double *c,
     int_t i, j;
     int   irow;
     double large, small, cj;
-    double temp;
 
 
     /* Quick return if possible */
@@ -145,8 +144,9 @@ zlaqgs(SuperMatrix *A, double *r, double *c,
 	    cj = c[j];
 	    for (i = Astore->colptr[j]; i < Astore->colptr[j+1]; ++i) {
 		irow = Astore->rowind[i];
-		temp = cj * r[irow];
-		zd_mult(&Aval[i], &Aval[i], temp);
+		/* cj * r[irow] may overflow */
+		zd_mult(&Aval[i], &Aval[i], r[irow]);
+		zd_mult(&Aval[i], &Aval[i], cj);
 	    }
 	}
 	*(unsigned char *)equed = 'B';
